@@ -524,10 +524,19 @@ from_patch("C11","seed2-space-stripping-after-lookup","seeded/C16-space-strippin
 from_patch("C17","seed2-sweep-decodes-into-shared-file","seeded/C17-sweep-decodes-into-shared-file/patch.diff","C17/R4","decode-target-reused","seed round 2")
 from_patch("C18","seed2-blocksenders-break-on-already-blocked","seeded/C18-blocksenders-break-on-already-blocked/patch.diff","C18/R7","loop-not-left-early","seed round 2")
 from_patch("C19","seed2-export-through-default-pagination","seeded/C19-export-through-default-pagination/patch.diff","C19/R5","export-paginated","seed round 2")
-from_patch("C20","seed2-client-splitter-cleans-path","seeded/C20-client-splitter-cleans-path/patch.diff","C20/R3","splitter","seed round 2")
+from_patch("C20","seed2-client-splitter-cleans-path","seeded/C20-client-splitter-cleans-path/patch_rebased.diff","C20/R3","splitter","seed round 2")
 
 m("C20","splitter-off-by-one","x/filetree/types/test_helpers.go",
-  'parentString := strings.Join(chunks[0:len(chunks)-1], "/")','parentString := strings.Join(chunks[0:len(chunks)-2], "/")',"C20/R3","splitter:x/filetree/types.MerkleHelper")
+  'for _, chunk := range chunks[0 : len(chunks)-1] {','for _, chunk := range chunks[0 : len(chunks)-2] {',"C20/R3","splitter:x/filetree/types.MerkleHelper")
+m("C20","splitter-reparses-joined-parent","x/filetree/types/test_helpers.go",
+  """	parentHash := ""
+	for _, chunk := range chunks[0 : len(chunks)-1] {
+		parentHash = AddToMerkle(parentHash, HashThenHex(chunk))
+	}
+""","""	parentHash := MerklePath(strings.Join(chunks[0:len(chunks)-1], "/"))
+""","C20/R3","splitter:x/filetree/types.MerkleHelper","inverse of the splitter fix")
+m("C20","splitter-fold-starts-from-root","x/filetree/client/cli/utils.go",
+  'parentHash := ""\n\tfor _, chunk := range chunks','parentHash := filetypes.MerklePath("s")\n\tfor _, chunk := range chunks',"C20/R3","splitter:x/filetree/client/cli.merkleHelper")
 m("C20","cli-splitter-trims-space","x/filetree/client/cli/utils.go",
   'trimPath := strings.TrimSuffix(argHashpath, "/")','trimPath := strings.TrimSuffix(strings.TrimSpace(argHashpath), "/")',"C20/R3","splitter:x/filetree/client/cli.merkleHelper")
 benign("C20","cli-splitter-delegates",[
@@ -535,17 +544,20 @@ benign("C20","cli-splitter-delegates",[
 	trimPath := strings.TrimSuffix(argHashpath, "/")
 	chunks := strings.Split(trimPath, "/")
 
-	parentString := strings.Join(chunks[0:len(chunks)-1], "/")
 	childString := (chunks[len(chunks)-1])
-	parentHash := filetypes.MerklePath(parentString)
+
+	// fold the parent segments the way MerklePath folds them; re-parsing the joined parent would drop an
+	// empty last parent segment ("a//c") and turn "no parent" ("s") into one empty segment
+	parentHash := ""
+	for _, chunk := range chunks[0 : len(chunks)-1] {
+		parentHash = filetypes.AddToMerkle(parentHash, filetypes.HashThenHex(chunk))
+	}
 
 	h := sha256.New()
 	h.Write([]byte(childString))
 	childHash := fmt.Sprintf("%x", h.Sum(nil))
 
 	return parentHash, childHash""","""	_ = strings.TrimSuffix
-	_ = sha256.New
-	_ = fmt.Sprintf
 	return filetypes.MerkleHelper(argHashpath)"""),
 ])
 benign("C20","splitter-child-via-hashthenhex",[
@@ -554,6 +566,9 @@ benign("C20","splitter-child-via-hashthenhex",[
 	childHash := fmt.Sprintf("%x", h.Sum(nil))
 
 	return parentHash, childHash""","""	return parentHash, HashThenHex(childString)"""),
+])
+benign("C20","splitter-parent-slice-without-lower-bound",[
+ ("x/filetree/types/test_helpers.go","for _, chunk := range chunks[0 : len(chunks)-1] {","for _, chunk := range chunks[:len(chunks)-1] {"),
 ])
 m("C19","export-loop-stops-early","x/rns/keeper/bids.go",
   'list = append(list, val)\n\t}\n\n\treturn\n}','list = append(list, val)\n\t\tif len(list) >= 1000 {\n\t\t\tbreak\n\t\t}\n\t}\n\n\treturn\n}',"C19/R5","rns:export-loop-exits-early:GetAllBids")
